@@ -120,7 +120,8 @@ def optimizer_rule(ctx, py, ci, mf, where):
 def thunk_call(ctx, py: PyRepo):
     fn = py.method('ProofThunk', '__call__')
     where = py.where('proof', fn)
-    ev = PyEval()
+    from ..core.pyfacts import self_method_resolver
+    ev = PyEval(resolver=self_method_resolver(py, py.cls('ProofThunk'), SELF))
     rets = [p for p in ev.paths(fn) if p.end[0] == 'return']
     ok = bool(rets)
     for p in rets:
